@@ -184,6 +184,8 @@ def env_like(rng):
     out.append(([("O", D, b"Target", [I(1), I(2)])], R(0)))
     out.append(([("O", D, b"Recursive", [S("f")])], R(0)))
     out.append(([("O", D, b"Recursive", [])], R(0)))
+    out.append(([("O", D, b"Recursive", [S("f"), I(3)])], R(0)))
+    out.append(([("O", D, b"Recursive", [S("f"), I(3), I(4)])], R(0)))
     out.append(([("O", D, b"Builtin", [])], T(R(0), R(0))))
     out.append(([("O", D, b"Builtin", [I(1)])], R(0)))
     out.append(([("O", D, b"Nope", [])], R(0)))
